@@ -167,6 +167,25 @@ def check(rep, tier, seed):
                 rep.fail(kind="property-oracle", cls="project:nonneg", case=cd, observed=b, expected=">= 0",
                          detail="projection of a non-negative spectrum has a negative entry")
 
+    # linearity in the values, exactly: multiplying every value by a power of two multiplies every output by it, bit for
+    # bit (binary64 arithmetic is invariant under such scaling as long as nothing underflows) - also for values far below
+    # 1 (frequencies, tiny-scaled spectra), which an absolute tolerance cannot see
+    lin = rng.sample(law_cases, min(len(law_cases), 120 if tier == "quick" else 1000))
+    for k in (-60, -80, -300, 40):
+        scaled = []
+        for c in lin:
+            t = c.split()
+            data = [x if x == "0" else ("%s/%d" % (x, 2 ** (-k)) if k < 0 else str(int(x) * 2 ** k)) for x in t[2].split(",")]
+            scaled.append("project %s %s %s" % (t[1], ",".join(data), t[3]))
+        for c, cs_, o in zip(lin, scaled, run_impl(scaled)):
+            rep.count("law:exact-scaling", cs_[:80], True)
+            a, b = impl[c].split(), o.split()
+            ok = len(a) == 3 and len(b) == 3 and a[1] == b[1] and finite_line(o) and \
+                all(parse_value(y) == parse_value(x) * Fraction(2) ** k for x, y in zip(a[2].split(","), b[2].split(",")))
+            if not ok:
+                rep.fail(kind="property-oracle", cls="project:exact-scaling", case=cs_, observed=o[:300], expected="%s scaled by 2^%d" % (impl[c][:200], k),
+                         detail="projection is not linear in the values: the spectrum scaled by 2^%d does not project to the scaled projection" % k)
+
     # projecting after creation = projecting during creation when no genotype is missing (on the binary)
     from callsets import render_vcf, cli_samples_arg
     from gen_create import random_map, pop_sizes
